@@ -359,6 +359,11 @@ func init() {
 			for _, sc := range FamilyTol(tier) {
 				items = append(items, explore("C03", sc, b, true))
 			}
+			// the tolerance grid again under the second internal scheduling policy (a woken goroutine runs before its waker
+			// goes on): slot release, failure count and launch loop hand over in the opposite order
+			for _, sc := range wakeTwins(FamilyTol(tier)) {
+				items = append(items, explore("C03", sc, b, true))
+			}
 			for _, sc := range FamilyChk(tier) {
 				items = append(items, explore("C03", sc, b-1+0, true))
 			}
